@@ -939,13 +939,16 @@ func rangeEqual(x, y rangeValue) bool {
 }
 
 func (r rangeValue) contains(x Int) bool {
-	x32, err := AsInt32(x)
-	if err != nil {
-		return false // out of range
+	// x and the elements of r need not fit in 32 bits, and x - r.start
+	// need not fit in an int, so compute with Int (arbitrary precision).
+	// Div and Mod are floored, so rem == 0 iff step divides delta exactly.
+	delta := x.Sub(MakeInt(r.start))
+	step := MakeInt(r.step)
+	if delta.Mod(step).Sign() != 0 {
+		return false
 	}
-	delta := x32 - r.start
-	quo, rem := delta/r.step, delta%r.step
-	return rem == 0 && 0 <= quo && quo < r.len
+	quo := delta.Div(step)
+	return quo.Sign() >= 0 && quo.Sub(MakeInt(r.len)).Sign() < 0
 }
 
 type rangeIterator struct {
